@@ -864,9 +864,10 @@ func handleMessage(peer *Peer, m protocol.Message) error {
 			// head drop
 			r := peer.requested[0]
 			err := reject(peer, r.Index, r.Begin, r.Length)
-			if err == nil {
-				peer.requested = peer.requested[1:]
+			if err != nil {
+				return err
 			}
+			peer.requested = peer.requested[1:]
 		}
 		peer.requested = append(peer.requested,
 			Requested{m.Index, m.Begin, m.Length})
